@@ -1,0 +1,15 @@
+//go:build verif
+
+// Copyright 2025 NVIDIA CORPORATION
+// SPDX-License-Identifier: Apache-2.0
+
+package status_updater
+
+// VerifIdle reports whether no pod or pod-group update is waiting to be applied.
+// Verification-only accessor.
+func (su *defaultStatusUpdater) VerifIdle() bool {
+	idle := true
+	su.inFlightPods.Range(func(_, _ any) bool { idle = false; return false })
+	su.inFlightPodGroups.Range(func(_, _ any) bool { idle = false; return false })
+	return idle
+}
